@@ -252,7 +252,7 @@ func varyOps(r *Rng, groups [][]jop) ([][]jop, string) {
 	if len(g) == 0 {
 		return g, "none"
 	}
-	switch r.Intn(6) {
+	switch r.Intn(7) {
 	case 0: // changed value in a matching test/remove pair
 		gi := r.Intn(len(g))
 		for j := 0; j+1 < len(g[gi]); j++ {
@@ -306,6 +306,28 @@ func varyOps(r *Rng, groups [][]jop) ([][]jop, string) {
 		}
 		g[gi] = ng
 		return g, "context-dropped"
+	case 6: // the adds of a hunk moved in front of its test/remove pairs (same ops, different order)
+		gi := r.Intn(len(g))
+		adds, others := []jop{}, []jop{}
+		for _, o := range g[gi] {
+			if o.Op == "add" {
+				adds = append(adds, o)
+			} else {
+				others = append(others, o)
+			}
+		}
+		if len(adds) > 0 && len(others) > 0 {
+			// keep leading context tests in front
+			k := 0
+			for k < len(others) && others[k].Op == "test" && !(k+1 < len(others) && others[k+1].Op == "remove" && others[k+1].Path == others[k].Path) {
+				k++
+			}
+			ng := append([]jop{}, others[:k]...)
+			ng = append(ng, adds...)
+			ng = append(ng, others[k:]...)
+			g[gi] = ng
+		}
+		return g, "adds-before-removes"
 	case 4: // '-' append that KEEPS its context tests: the trailing adds of a hunk without removes become appends
 		gi := r.Intn(len(g))
 		hasRemove := false
